@@ -94,6 +94,19 @@ class Ctx:
         self.models.append(r)
         return r
 
+    def simulate(self, name, module, consts, invariants, num=1500, depth=80):
+        """thorough tier: random behaviours of a universe too large to enumerate"""
+        cfg = self.cfg(name, consts, invariants)
+        r = tlc_simulate(module, cfg, self.path("meta-" + name), num=num, depth=depth, seed=self.seed)
+        r["name"] = name
+        r["consts"] = dict(consts, mode=f"simulate num={num}x8 depth={depth}")
+        if not r["ok"]:
+            raise ToolError(f"simulation {name} ({module}) failed - the specification itself is broken:\n{r.get('error', '')[:3000]}")
+        log(f"[model] {name}: simulation, {r['traces']} behaviours, {r['generated']} states checked, {r['wall']:.1f}s")
+        self.notes.append(f"{name}: TLC -simulate, {r['traces']} behaviours, {r['generated']} states checked")
+        self.models.append(r)
+        return r
+
     def cover(self, name, module, consts, invariants):
         """spec -> code: one path per distinct state of the model, printed by TLC"""
         consts = dict(consts, Emit="TRUE")
@@ -378,6 +391,7 @@ def plan_key_semantics(ctx):
     if not q:
         ctx.model("mckey-b", "MCKey", key_consts(3, 4, cap=1), KEY_INV)
         ctx.model("mckey-c", "MCKey", key_consts(5, 2), KEY_INV)
+        ctx.simulate("mckey-sim", "MCKey", key_consts(7, 6), KEY_INV, num=1200)
     colls = ["keytree"] + (["keylist"] if ctx.pid == "C20" else [])
     futs = key_cover_jobs(ctx, colls, 3, 3, [0], 4 if q else 6, export=0, limit=450 if q else None)
     if not q:
@@ -453,6 +467,8 @@ def plan_structure(ctx):
             ctx.model(f"mcord-c{cap}", "MCOrd", ord_consts(7, cap=cap), ORD_INV)
         ctx.model("mckey-c9", "MCKey", key_consts(3, 3, cap=9), KEY_INV)
         ctx.model("mckey-b", "MCKey", key_consts(5, 2), KEY_INV)
+        ctx.simulate("mcord-sim", "MCOrd", ord_consts(16, cap=1, writes=True), ORD_INV, num=1200, depth=120)
+        ctx.simulate("mckey-sim", "MCKey", key_consts(7, 6), KEY_INV, num=800)
     if ctx.pid == "C11":
         # the storage bound as an inductive invariant of the integer abstraction of the pool, for arenas and
         # histories of every size (Apalache / Z3); MCOrd / MCKey assert that every transition of the
